@@ -31,7 +31,7 @@ m = {
         "guard": "cargo feature `verif-hooks` (off by default)",
         "enable": "the harness crate depends on /repo by path with features=[\"verif-hooks\"]; cargo rebuilds it from the working tree on every check",
         "baseline_off_cmd": "cd /repo && CARGO_NET_OFFLINE=true cargo test --workspace --no-fail-fast --offline",
-        "source_commits": ["4c802ce", "d7ccbd5"],
+        "source_commits": ["4c802ce", "a7b3f4e", "939cc74"],
         "add_only": True,
     },
     "engines": [
